@@ -260,13 +260,17 @@ func usesIdent(f *ast.File, name string) bool {
 	return used
 }
 
-func (c *fileCtx) yield() ast.Stmt {
+func (c *fileCtx) yield() ast.Stmt { return c.yieldNamed("Yield") }
+
+// yieldNamed inserts a scheduling point; "YieldSpawn" (before a go statement) always goes through the
+// scheduler, so that at most one new goroutine appears per scheduling step and task naming is canonical.
+func (c *fileCtx) yieldNamed(fn string) ast.Stmt {
 	c.usedRT = true
 	c.nYield++
 	site := fmt.Sprintf("%s.%s#%d", c.pkgRel, c.fn, c.ord)
 	c.ord++
 	return &ast.ExprStmt{X: &ast.CallExpr{
-		Fun:  &ast.SelectorExpr{X: ast.NewIdent(rtAlias), Sel: ast.NewIdent("Yield")},
+		Fun:  &ast.SelectorExpr{X: ast.NewIdent(rtAlias), Sel: ast.NewIdent(fn)},
 		Args: []ast.Expr{&ast.BasicLit{Kind: token.STRING, Value: strconv.Quote(site)}},
 	}}
 }
@@ -319,7 +323,9 @@ func (c *fileCtx) stmts(list []ast.Stmt, clauseTop bool) []ast.Stmt {
 		out = append(out, c.yield())
 	}
 	for i, s := range list {
-		if !(clauseTop && i == 0) && interesting(unlabel(s)) {
+		if _, isGo := unlabel(s).(*ast.GoStmt); isGo {
+			out = append(out, c.yieldNamed("YieldSpawn"))
+		} else if !(clauseTop && i == 0) && interesting(unlabel(s)) {
 			out = append(out, c.yield())
 		}
 		out = append(out, c.stmt(s)...)
